@@ -1,0 +1,12 @@
+//go:build verif
+
+// Contracts for the deductive verifier under /verif (comment-only file).
+package utf8
+
+//@ pure func validSpec(src string) bool
+//@ func Validate assumed "wrapper of native validate_utf8_fast: a function of the bytes"
+//@   ensures result == validSpec(string(src))
+//@ func CorrectWith assumed "append loop around native validate_utf8; ownership facts only (loop not yet under contract)"
+//@   modifies dst[_]
+//@   ensures base(result) == base(dst) || fresh(result)
+//@   ensures base(result) != 0
